@@ -33,13 +33,56 @@ SCALE_NAME = {2.0 ** -10: "1e-3", 2.0 ** -7: "1e-2", 2.0 ** -3: "1e-1", 1.0: "1"
 _SYS = {}
 
 
+def _rot_pauli(seed):
+    """normalized Pauli basis conjugated by a fixed unitary: orthonormal, Hermitian, 0th element prop. to the identity"""
+    from quara.objects import matrix_basis as mb
+    p = mb.get_normalized_pauli_basis()
+    arr = [np.asarray(b.toarray() if hasattr(b, "toarray") else b) for b in p]
+    u = qobj.rand_unitary(np.random.default_rng(seed), 2)
+    return type(p)([arr[0]] + [u @ b @ u.conj().T for b in arr[1:]])
+
+
+def _sys_g4():
+    from quara.objects import matrix_basis as mb
+    return qobj.CompositeSystem([qobj.ElementalSystem(0, mb.get_normalized_generalized_gell_mann_basis(1, 4))])
+
+
+def _sys_qr():
+    return qobj.CompositeSystem([qobj.ElementalSystem(0, _rot_pauli(5))])
+
+
+def _sys_qqr():
+    from quara.objects import matrix_basis as mb
+    return qobj.CompositeSystem([qobj.ElementalSystem(0, _rot_pauli(6)), qobj.ElementalSystem(1, mb.get_normalized_pauli_basis())])
+
+
+# systems of equal dimension (and equal number of subsystems where that matters) but different bases / factor order:
+# whatever quara caches per system must not leak from one member to the next one used in the same process
+SIBLINGS = (("qq", "g4", "qqr"), ("q", "qr"), ("qt", "tq"))
+
+
+def warm_siblings(kind):
+    """use every OTHER member of the sibling group of `kind` first (replays re-create the sequence that exposed a failure)"""
+    for grp in SIBLINGS:
+        if kind in grp:
+            for sib in grp:
+                if sib != kind:
+                    cs_, _ = system(sib)
+                    g = np.random.default_rng(2)
+                    call_site("State", cs_, "ineq", "obj", False, gen_param(g, "State", sib, 1, 1.0, "random"), 1)
+                    if cs_.dim <= 4:
+                        call_site("Gate", cs_, "ineq", "obj", False, gen_param(g, "Gate", sib, 1, 1.0, "random"), 1)
+
+
 def system(kind):
-    """kind: 'q' qubit, 't' qutrit, 'qq' two qubits, 'qt' qubit x qutrit, 'tq' qutrit x qubit (cached: quara caches sparse bases per system)"""
+    """kind: 'q' qubit, 't' qutrit, 'qq' two qubits, 'qt' qubit x qutrit, 'tq' qutrit x qubit, 'g4' one 4-level system
+    (generalised Gell-Mann basis), 'qr' qubit with a rotated Pauli basis, 'qqr' rotated qubit x qubit (cached: quara caches sparse bases per system)"""
     if kind not in _SYS:
         c = {"q": lambda: qobj.csys("qubit"), "t": lambda: qobj.csys("qutrit"),
              "qq": lambda: qobj.csys("qubit", names=(0, 1)),
              "qt": lambda: qobj.csys(["qubit", "qutrit"], names=(0, 1)),
-             "tq": lambda: qobj.csys(["qutrit", "qubit"], names=(0, 1))}[kind]()
+             "tq": lambda: qobj.csys(["qutrit", "qubit"], names=(0, 1)),
+             "g4": _sys_g4, "qr": _sys_qr, "qqr": _sys_qqr}[kind]()
         B = qobj.basis_mats(c)
         # hypotheses of the Lean theorems about the operator basis (OrthoN, HermB, d*d elements), re-checked numerically
         G = np.array([[np.trace(a.conj().T @ b) for b in B] for a in B])
@@ -137,12 +180,22 @@ def blocks(typ, c, x):
     return list(x.reshape(-1, n * n))
 
 
+_STACK = {}
+
+
+def _stack(basis):
+    k = id(basis)
+    if k not in _STACK or _STACK[k][0] is not basis:
+        _STACK[k] = (basis, np.array(basis, dtype=np.complex128))
+    return _STACK[k][1]
+
+
 def op_of(basis, coef):
-    return sum(v * b for v, b in zip(coef, basis))
+    return np.tensordot(np.asarray(coef, dtype=np.float64), _stack(basis), axes=1)
 
 
 def coef_of(basis, M):
-    return np.array([np.trace(b.conj().T @ M).real for b in basis])
+    return np.einsum("aij,ij->a", _stack(basis).conj(), M).real
 
 
 def psd_part(M):
@@ -713,6 +766,7 @@ def oracle(ctx, volume=1):
                 check_point(ctx, cs["g"], which, cs["typ"], cs["kind"], cs["m"], cs["x"], cs["scale"], cs["cls"], ncomp)
     defect_d5(ctx)
     basis_table_sequence(ctx, volume)
+    equal_dim_sequence(ctx, volume)
     low_purity(ctx, volume)
 
 
@@ -726,6 +780,22 @@ def basis_table_sequence(ctx, volume=1):
                 for _ in range(volume):
                     x = gen_param(g, typ, kind, m, 1.0, cls)
                     ctx.count(f"oracle basis-table sequence {typ} {kind} class={cls}")
+                    check_point(ctx, g, "ineq", typ, kind, m, x, 1.0, cls, 3)
+
+
+def equal_dim_sequence(ctx, volume=1):
+    """systems of equal dimension with different bases, one after the other (2 qubits Pauli x Pauli -> one 4-level generalised
+    Gell-Mann system -> rotated 2-qubit basis -> back; qubit Pauli -> rotated qubit -> back): HS <-> Choi conversions
+    (Gate / MProcess clauses) must use each system's own basis"""
+    g = ctx.npgen(10)
+    for kind in ("qq", "g4", "qqr", "qq", "q", "qr", "q"):
+        for typ, m in (("Gate", 1), ("MProcess", 2)):
+            if typ == "MProcess" and kind in ("qqr", "qq") and ctx.quick:
+                continue
+            for cls in ("near",) if ctx.quick else ("near", "random", "physical"):
+                for _ in range(volume):
+                    x = gen_param(g, typ, kind, m, 1.0, cls)
+                    ctx.count(f"oracle equal-dimension sequence {typ} {kind} class={cls}")
                     check_point(ctx, g, "ineq", typ, kind, m, x, 1.0, cls, 3)
 
 
@@ -775,11 +845,7 @@ def replay(ctx, data):
     r = data["replay"]
     print("replaying", {k: v for k, v in r.items() if k != "x"})
     before = len(ctx.violations)
-    if r["system"] in ("qt", "tq"):
-        # the failing input was found in a sequence over composite systems of equal shape: use the sibling ordering first
-        sib = "tq" if r["system"] == "qt" else "qt"
-        cs_, _ = system(sib)
-        call_site("State", cs_, "ineq", "obj", False, gen_param(ctx.npgen(2), "State", sib, 1, 1.0, "random"), 1)
+    warm_siblings(r["system"])
     check_point(ctx, ctx.npgen(1), r["which"], r["typ"], r["system"], r["m"], np.array(r["x"], dtype=float), r.get("scale", 1.0),
                 r.get("class", "random"), 8)
     for v in ctx.violations[before:]:
